@@ -7,6 +7,6 @@ PROP = dict(
     assumptions=["the in-memory storage engine stands in for file/S3 storage", "float inputs of sum() are quarter-valued so that sums are exact in any order (no tolerance needed)"],
     tests=[dict(name="TestVamExpr", quick=(3, 350), thorough=(6, 3000)),
            dict(name="TestVamOps", quick=(3, 350), thorough=(6, 3000)),
-           dict(name="TestVamLake", quick=(2, 30), thorough=(4, 300)),
+           dict(name="TestVamLake", quick=(3, 40), thorough=(4, 300)),
            dict(name="TestVcacheFetch", quick=(1, 2), thorough=(1, 6))],
 )
